@@ -110,6 +110,8 @@ def c23(ck, F, tier):
         guarded(ck, rn.table_data, F, lookup, printer, T, tier)
         guarded(ck, rn.source_matches_bin, F, T)
     guarded(ck, rn.error_tables, F, T)
+    ck.rule("CHAR-UNITS", "lexer positions advance by character counts, never by byte lengths of localized strings", floor=10)
+    guarded(ck, rn.char_units, F)
 
 
 def c26(ck, F, tier):
